@@ -200,6 +200,39 @@ def o_c12(w, args):
         return '[vietorisRips/duplicate-simplex] two simplices share a vertex set'
     return None
 
+@oracle('c12-lattice')
+def o_c12_lattice(w, args):
+    """<rows> <cols> <h> <w> <eps>: the Vietoris-Rips complex of a lattice embedding whose positions have not been
+    read yet (they are computed on demand by the subclass): same family as from the positions themselves"""
+    r = int(args[0]); cols = int(args[1]); h = float.fromhex(args[2]); wd = float.fromhex(args[3]); eps = float.fromhex(args[4])
+    c = TriangularLattice(r, cols); e = TriangularLatticeEmbedding(c, h, wd)
+    try:
+        vr = e.vietorisRipsComplex(eps)          # nothing has asked for a position before this call
+    except Exception as ex:
+        return '[vietorisRips/lattice-raises] %s: %s' % (type(ex).__name__, ex)
+    pts = list(c.simplicesOfOrder(0))
+    pos = {}
+    for p in pts:
+        i, j = divmod(p, cols)
+        pos[p] = [(wd / (2 * cols)) * (2 * j + (i % 2)), h - (h / r) * i]
+    close = {frozenset([tok(a), tok(b)]) for a, b in itertools.combinations(pts, 2) if own_distance(None, pos[a], pos[b]) <= eps}
+    want = {frozenset([tok(p)]) for p in pts} | close
+    adj = {tok(p): set() for p in pts}
+    for E in close:
+        a, b = tuple(E); adj[a].add(b); adj[b].add(a)
+    level = set(close)
+    while level:
+        nxt = set()
+        for K in level:
+            for q in set.intersection(*(adj[p] for p in K)):
+                nxt.add(K | {q})
+        want |= nxt; level = nxt
+    got = fam_sets(vr)
+    if got != want:
+        return '[vietorisRips/lattice-wrong-family] %dx%d lattice in a %rx%r box, eps=%r: missing %s ; extra %s' % (
+            r, cols, h, wd, eps, sorted(map(sorted, want - got))[:4], sorted(map(sorted, got - want))[:4])
+    return None
+
 # ================================================================ C15
 @oracle('c15-pre')
 def o_c15_pre(w, args):
